@@ -86,6 +86,11 @@ CHECKS = {
          "Generated search over names in five scripts, descriptions with long words/newlines/blank paragraphs, nesting and terminal widths 1..400 (real pty on fd 0); the rendered help must not panic, be valid UTF-8, start all descriptions in one column (characters), indent continuation lines to it, conserve the words in order, and respect the width when >= 10 columns remain.",
          "column and width are measured in characters (the unit the library's own alignment uses); tabs inside descriptions and '-' inside description words are not generated (hyphen at line end is then unambiguously a hard break); requires /dev/ptmx, otherwise cases are skipped and counted",
          "DESIGN.md §4 C17"),
+ "C18": ("exploration",
+         "property-based testing (rapid): expected completion set derived from the reference semantics' state after the prefix; acceptance of offered items by the real parser; context agreement",
+         "Generated search over declarations with completing and plain types, hidden options/commands, commands depth <= 3 with aliases and clashes, prefixes that R parses without error and every kind of partial last word. The completion list must equal the set R derives (non-hidden in-scope options for a partial long name or bare dash; the type's completions re-attached to the spelling for values of completing options/positionals; non-hidden sub-command names otherwise), be sorted, contain only items the real parser does not reject as unknown at that position, and the real parser's active chain on the prefix must equal R's.",
+         RNOTE + "; positions the statement does not settle (value of a non-completing type, short clusters with a non-empty match, words after the terminator) get only the sorted/accepted/context checks; hidden groups are not generated (only hidden options and commands)",
+         "DESIGN.md §4 C18"),
  "C19": ("exploration",
          "property-based testing (rapid): tags built by construction with random escape spellings, single-fault mutations and declaration faults, judged by a reference tag scanner; native fuzzing of raw tag bytes",
          "Generated search over declarations whose tag values are arbitrary strings rendered with per-character random escapes and spacing, with repeated keys, one mutation at a random position, or one declaration fault (long short name, default on a flag, duplicate short / namespaced long name incl. namespace-created collisions). A reference scanner of the conventional tag syntax decides well-formedness; well-formed declarations must yield exactly the declared public model (Option/Group/Command/Arg fields, order, field binding), faulty ones the corresponding typed error from AddGroup/AddCommand and from NewParser+ParseArgs; never a panic. Thorough adds a 60 s fuzz campaign over raw tag bytes.",
